@@ -9,6 +9,8 @@
 
 #[path = "/verif/harness/common/vlog.rs"]
 mod vlog;
+#[path = "/verif/harness/relayer/crash.rs"]
+mod crash;
 
 use astria_core::{
     brotli::decompress_bytes,
